@@ -67,6 +67,8 @@ def jacobian(fun, x):
     vjp, ans = _make_vjp(fun, x)
     ans_vspace = vspace(ans)
     jacobian_shape = ans_vspace.shape + vspace(x).shape
+    if ans_vspace.size == 0:  # nothing to stack: the Jacobian of an empty output is empty
+        return np.zeros(jacobian_shape)
     grads = map(vjp, ans_vspace.standard_basis())
     return np.reshape(np.stack(grads), jacobian_shape)
 
